@@ -50,7 +50,7 @@ def l2_ob(be, k, m, hd, order, ln=None, mode=1, force=0, expect=1, dest=0, ct=1,
             defs["HDRVAL"] = f"({hdrdmg[2]})"
     if uf:
         defs["UFCRC"] = None
-        if dmg or (force and hdrdmg is None): defs["UFCONST"] = None
+        if dmg or force: defs["UFCONST"] = None
     units = (uf_units() if uf else real_crc_units()) + ["ref_format", "xor_eq"]
     oid = f"{tag}-{BNAME[be]}{k}_{m}_{hd}-ct{ct}-len{ln}-m{mode}f{force}-o{'.'.join(map(str, order))}" + (f"-d{dest}" if mode == 2 else "") + (f"-dmg{dmg}p{dmgpos}" if dmg else "") + (f"-ua{unalign}" if unalign else "") + (f"-h{hdrdmg[0]}f{hdrdmg[1]}" + (f"v{hdrdmg[2]}" if len(hdrdmg) > 2 else "") if hdrdmg else "") + ("-uf" if uf else "") + (f"-e{expect}" if expect != 1 else "")
     ob = Ob(id=oid, harness="l2.c", defs=defs, units=units, unwind=max(8, k + m + 3, size + 3), timeout=timeout, mem_gb=mem,
